@@ -54,6 +54,10 @@ CheckState(k) ==
      /\ T(ob.as_dict) = AsDict(t) \/ Say("state", k, "as_dict")
      /\ T(ob.n2d) = AsDict(t) \/ Say("state", k, "namespace_to_dict")
      /\ T(ob.d2n) = DictToNamespace(AsDict(t)) \/ Say("state", k, "dict_to_namespace")
+     \* the conversions return copies (observed after everything reachable from a FIRST conversion was modified)
+     /\ T(ob.d2n_second) = DictToNamespace(AsDict(t)) \/ Say("state", k, "dict_to_namespace-shares")
+     /\ T(ob.d2n_input_after) = AsDict(t) \/ Say("state", k, "dict_to_namespace-modifies-input")
+     /\ ob.n2d_indep \/ Say("state", k, "namespace_to_dict-shares")
      /\ T(ob.ctor) = AsDict(t) \/ Say("state", k, "Namespace(dict)")
      /\ T(ob.clone) = t \/ Say("state", k, "clone")
      /\ ob.clone_eq \/ Say("state", k, "clone-eq")
